@@ -437,6 +437,7 @@ class StmtMixin:
                 elif v.ty.kind == 'any':
                     nv = self.from_any(v, TObj(cn))
                     self.assume_typed(nv, st, depth=0)       # an instance is a live, non-null object of that class
+                    st.assume(self.to_any(nv).z == v.z)      # ... and viewing it dynamically again gives the same value
                     st.env[test.args[0].id] = nv
 
     def st_Try(self, s, st):
@@ -843,4 +844,22 @@ class StmtMixin:
         return [_out('next', st)]
 
     def st_With(self, s, st):
-        _unsup('with statement', s)
+        """with <expr> [as name]: body.  The context manager is any value (contract of the call); __exit__ is assumed not to
+        swallow exceptions and not to raise (files, locks); suppress(...) is handled as try/except pass."""
+        if len(s.items) != 1:
+            _unsup('with: several items', s)
+        item = s.items[0]
+        ce = item.context_expr
+        if isinstance(ce, ast.Call) and isinstance(ce.func, ast.Name) and ce.func.id == 'suppress':
+            handler = ast.ExceptHandler(type=ce.args[0] if len(ce.args) == 1 else ast.Tuple(elts=list(ce.args), ctx=ast.Load()), name=None, body=[ast.Pass()])
+            t = ast.Try(body=s.body, handlers=[handler], orelse=[], finalbody=[])
+            ast.copy_location(t, s)
+            ast.fix_missing_locations(t)
+            return self.st_Try(t, st)
+        outs = []
+        for v, s2 in self.ev(ce, st):
+            states = [s2]
+            if item.optional_vars is not None:
+                states = self.assign(item.optional_vars, v, s2, s)
+            outs += self.block(s.body, states)
+        return outs
